@@ -62,6 +62,7 @@ def run(ctx):
     fams = [f for f in enc.FAMILIES if f.startswith('msg_handshake') or f.startswith('hs_')]
     exact, mutants = common.gen_cases(ctx, fams, n)
     common.run_exact(ctx, exact)
+    common.run_exact(ctx, common.long_tails(ctx, exact))
     common.run_differential(ctx, mutants, common.proj_value)
     rej = rejection_cases(ctx)
     common.run_differential(ctx, rej, common.proj_value,
